@@ -259,6 +259,18 @@ Definition src_ali_of_ref_feat (fl : option (option tensor)) (t : tensor) : opti
 Definition feats_of (n : str) (fl : option (option tensor)) : option dir :=
   match fl with None => None | Some None => Some [] | Some (Some f) => Some [(n, f)] end.
 
+(* the model's worker with the three feature-file situations spelled out (= Model.ali_of_ref_feat on [feats_of n fl],
+   lemma Tie.ali_of_ref_fl_model) *)
+Definition ali_of_ref_fl (fl : option (option tensor)) (t : tensor) : out tensor :=
+  match fl with
+  | None => ali_of_ref None t
+  | Some x =>
+      match ali_of_ref None t with
+      | Fail EValue => Fail EValue
+      | _ => match x with None => Fail EOS | Some f => ali_of_ref (Some (tlen f)) t end
+      end
+  end.
+
 Definition src_tok2ali_check (fl : option (option tensor)) (t : tensor) (impl : out tensor) : bool :=
   opt_out_eqb (src_ali_of_ref_feat fl t) impl.
 
